@@ -207,9 +207,15 @@ def spelling_case(job):
                  (lambda: pt.Bytes("base16", "61"), b"a"), (lambda: pt.Bytes("a"), b"a"), (lambda: pt.Bytes("base64", "YQ=="), b"a"), (lambda: pt.Bytes("0x61"), b"0x61"),
                  (lambda: pt.Bytes("base16", "0x61"), b"a"), (lambda: pt.Itob(pt.Int(1)), u(1)), (lambda: pt.Bytes("1"), b"1"), (lambda: pt.Bytes("TMPL"), b"TMPL"),
                  (lambda: pt.Itob(pt.OnComplete.OptIn), u(1)), (lambda: pt.Bytes("OptIn"), b"OptIn")]
+        if order < 0:
+            # every named integer constant PyTeal can emit (`int pay`, `int OptIn`, ...), expectations from the AVM specification
+            items = [(lambda n=n: pt.Itob(getattr(pt.OnComplete, n)), u(v)) for n, v in
+                     (("NoOp", 0), ("OptIn", 1), ("CloseOut", 2), ("ClearState", 3), ("UpdateApplication", 4), ("DeleteApplication", 5))] + \
+                    [(lambda n=n: pt.Itob(getattr(pt.TxnType, n)), u(v)) for n, v in
+                     (("Unknown", 0), ("Payment", 1), ("KeyRegistration", 2), ("AssetConfig", 3), ("AssetTransfer", 4), ("AssetFreeze", 5), ("ApplicationCall", 6))]
         idx = list(range(len(items)))
         random.Random(order).shuffle(idx)
-        idx = idx[:12]                        # the AVM allows 32 logs per program
+        idx = idx[:13]                        # the AVM allows 32 logs per program
         body, want = [], []
         for k in idx:
             for j in range(repeat):
@@ -270,11 +276,11 @@ def run(report: Report, tier, seed):
     with ProcessPoolExecutor(max_workers=16) as ex:
         res = list(ex.map(gen_case, specs, chunksize=4))
         many = list(ex.map(many_constants_case, [(k, m, v) for k in ("ints", "bytes") for m in (3, 5, 6, 40, 130, 257, 300) for v in (3, 10)]))
-        spj = [(o, rep, v) for o in range(6 if tier == "quick" else 40) for rep in (1, 2, 3) for v in (3, 6, 10)]
+        spj = [(o, rep, v) for o in list(range(6 if tier == "quick" else 40)) + [-1, -2] for rep in (1, 2, 3) for v in (3, 6, 10)]
         spr = list(ex.map(spelling_case, spj, chunksize=4))
     spbad = [r for r in spr if r["problems"]]
     report.bounded.append(Bounded(function="createConstantBlocks on constants whose literal text or value coincides across literal kinds", contract="every load site pushes the value its own pseudo-op form denotes",
-                                  bound=f"18 literals (method / byte / addr / enum / int whose argument texts coincide across kinds, one value in several spellings), each executed and compared with its independently computed value, x {len(spj)} (order, repetition, version) settings",
+                                  bound=f"18 literals (method / byte / addr / enum / int whose argument texts coincide across kinds, one value in several spellings) and all 13 named integer constants (OnComplete, TxnType), each executed and compared with its independently computed value, x {len(spj)} (order, repetition, version) settings",
                                   cases=len(spr), distinct_nontrivial=len(spr), failures=len(spbad)))
     bad = [(s, r) for s, r in zip(specs, res) if [m for m in r["mismatches"] if m["kind"] in ("outcome", "asm")] or r["index_problems"]]
     mbad = [m for m in many if m["problems"]]
